@@ -431,7 +431,7 @@ func (w *iterWorld) Exec(p *Plan, st *RunStats) *Violation {
 					o.Fail("C08", "move-result", "iterator #%d: %s from position %d of %d elements returned %v, cursor model says %v (new position %d)", op.X, op, before, n, ret, wret, m.pos)
 					return
 				}
-				if m.pos >= 0 && m.pos < n {
+				if m.pos >= 0 && m.pos < n && derive(op.ID, 55, 3) != 0 { // (one move in three is not followed by a read of the accessors)
 					if got, want := m.cur.Pos(), snap.At(m.pos); got != want {
 						o.Fail("C08", "position-content", "iterator #%d: after %s from position %d the cursor should be at position %d = %s, iterator reports %s", op.X, op, before, m.pos, want, got)
 					}
